@@ -67,6 +67,10 @@ def classify_failure(r, rec, eps):
         if rec and rec[-1]["out"] is not None:
             o = rec[-1]["out"]
             absorbed = bool(np.any((o + eps) == o) and np.max(o) > 0)
+        if absorbed and "mutation" in r["msg"].lower():
+            return ("mutation-time-rounds-onto-parent-at-large-times",
+                    f"date() raised {r['exc']}: {r['msg'][:100]} — node times so large that the forced pass can only "
+                    "separate parent and child by one ulp; tskit's evenly spaced mutation time then rounds onto the parent")
         if absorbed:
             return ("absorption-at-large-times",
                     f"date() raised {r['exc']}: {r['msg'][:120]} — constrained times contain t with fl(t+eps)==t")
@@ -74,16 +78,26 @@ def classify_failure(r, rec, eps):
     return None
 
 
-def one_date(rng, ts, info, res, stats):
+def one_date(rng, ts, info, res, stats, targeted=False):
     method = str(rng.choice(["variational_gamma", "inside_outside", "maximization"]))
+    if targeted:
+        # ancestral samples + a minimum branch length comparable to the node spacing: the forced pass has to
+        # move sample parents and whole chains of ancestors (only variational_gamma accepts such inputs)
+        method = "variational_gamma"
     kw = dating.method_options(rng, method, info)
     scale = float(rng.choice([1, 1, 1e-3, 1e-6, 1e3, 1e-8]))   # mutation-rate scale -> time scale 1/scale
+    if targeted:
+        scale = 1.0
     kw["mutation_rate"] = info["mu"] * scale
     if method != "variational_gamma":
         kw["population_size"] = info["Ne"] / scale
     eps = None
-    if rng.random() < 0.5:
-        eps = float(rng.choice([1e-8, 1e-6, 1e-3, 1.0]))
+    if targeted:
+        tpos = ts.nodes_time[ts.nodes_time > 0]
+        eps = float(rng.choice([0.02, 0.1, 0.5])) * float(np.median(tpos) if tpos.size else 1.0)
+        kw["min_branch_length"] = eps
+    elif rng.random() < 0.5:
+        eps = float(rng.choice([1e-8, 1e-6, 1e-3, 1.0, 1.0, 20.0]))
         kw["min_branch_length"] = eps
     if rng.random() < 0.4:
         kw["constr_iterations"] = int(rng.choice([0, 1, 10, 100]))
@@ -101,6 +115,17 @@ def one_date(rng, ts, info, res, stats):
             res.violations.append(Violation(cl[0], cl[1], replay))
         return
     out = r["out"]
+    # glue of get_modified_ts (model: `nodes.time := constrain_ages(ts, posterior mean, eps, iters)`, nothing
+    # else writes node times): the returned node times are bit-for-bit the recorded output of constrain_ages
+    if rec and rec[-1]["out"] is not None and not np.array_equal(out.nodes_time, rec[-1]["out"]):
+        k = int(np.sum(out.nodes_time != rec[-1]["out"]))
+        res.corr_failures.append(Violation("node-times-not-constrain-output",
+                                           f"{method}: {k} returned node time(s) differ from what constrain_ages returned "
+                                           "(get_modified_ts model: nodes.time := constrain_ages(...))", replay, stage="B"))
+    if rec and rec[-1]["eps"] != eps_eff:
+        res.corr_failures.append(Violation("min-branch-length-not-passed",
+                                           f"{method}: constrain_ages was called with epsilon={rec[-1]['eps']!r}, "
+                                           f"expected min_branch_length={eps_eff!r}", replay, stage="B"))
     bad = check_output(ts, out, eps_eff, rec)
     for kind, what in bad:
         res.violations.append(Violation(kind, f"{method}: {what}", replay))
@@ -123,6 +148,9 @@ def run(ctx):
     impl, fails = cc.correspondence(ctx, cases)
     res.corr_failures += fails
     for c, o in zip(cases, impl):
+        if o is None:      # implementation raised: already reported as a correspondence failure
+            res.evaluations += 1
+            continue
         res.evaluations += 1
         stats["modes"][c["mode"]] = stats["modes"].get(c["mode"], 0) + 1
         stats["iters"][c["iters"]] = stats["iters"].get(c["iters"], 0) + 1
@@ -146,10 +174,18 @@ def run(ctx):
     for _ in range(ctx.n(40, 800)):
         ploidy = 2 if rng.random() < 0.3 else 1
         ts, info = gen.gen_ts(rng, historical=0.3, polytomy=0.15, rootmuts=0.2, ploidy=ploidy, extra_flags=0.2,
+                              internal_samples=0.3,
                               n=int(rng.integers(2, 7)))
         if ts.num_mutations == 0:
             continue
         one_date(rng, ts, info, res, stats)
+    for _ in range(ctx.n(25, 400)):
+        ts, info = gen.gen_ts(rng, historical=0.5, internal_samples=1.0, extra_flags=0.2, n=int(rng.integers(3, 8)),
+                              muts_per_edge=float(rng.choice([1, 3, 8])))
+        if ts.num_mutations == 0:
+            continue
+        stats["targeted"] = stats.get("targeted", 0) + 1
+        one_date(rng, ts, info, res, stats, targeted=True)
     res.rule = ("B: (edges, sample flags) of generated tree sequences x adversarial unconstrained time vectors x eps x "
                 "iterations, `_constrain_ages` vs Lean model at Float, compared bit-for-bit; C: date() over 3 methods x "
                 "options x mutation-rate scales 1e-8..1e3, output checked against the statement. Non-trivial = the "
@@ -163,7 +199,8 @@ def search(ctx):
     stats = dict(methods={}, raised={}, forced_fired=0, max_time=0.0)
     rng = ctx.rng(3)
     for _ in range(ctx.n(30, 100)):
-        ts, info = gen.gen_ts(rng, historical=0.3, polytomy=0.15, rootmuts=0.2, n=int(rng.integers(2, 7)))
+        ts, info = gen.gen_ts(rng, historical=0.3, polytomy=0.15, rootmuts=0.2, internal_samples=0.5, extra_flags=0.2,
+                              n=int(rng.integers(2, 7)))
         if ts.num_mutations:
             one_date(rng, ts, info, res, stats)
     return res
